@@ -225,7 +225,12 @@ func S2(rc *RC) {
 				}
 			}
 			if strings.Contains(p.Ret, "errors.") {
-				okRet = true
+				// the offset helpers refuse nothing themselves: whether a coordinate is valid is
+				// decided by Ltoi over the tensor's own shape, and a further guard can only reject
+				// coordinates Ltoi accepts (offset >= DataSize() rejects index 0 of a scalar, whose
+				// DataSize() is 0: seed R9C02a)
+				bad = append(bad, fmt.Sprintf("refuses on its own with %q on path [%s]: every refusal of a coordinate is Ltoi's", p.Ret, strings.Join(p.Guards, " && ")))
+				continue
 			}
 			if !okRet {
 				if strings.Contains(p.Ret, "Ltoi(") || strings.Contains(p.Ret, ".at(") {
